@@ -810,8 +810,9 @@ class Emitter:
                 if v['shape'] == 'newtype':
                     self.w('Definition dec_%s_v%d (j : json) : option %s := option_map %s (%s j).' % (n, k, n, c, dec_of(v['ty'])))
                 else:
-                    self.w('Definition dec_%s_v%d (j : json) : option %s :=\n  match j with\n  | JObj kv => %s\n  | JArr l => %s\n  | _ => None\n  end.'
-                           % (n, k, n, self.dec_fields_obj(v['fields'], c), self.dec_fields_seq(v['fields'], c)))
+                    # serde_derive de/struct_.rs: `StructForm::Untagged(_) => None` — no visit_seq for untagged struct variants
+                    self.w('Definition dec_%s_v%d (j : json) : option %s :=\n  match j with\n  | JObj kv => %s\n  | _ => None\n  end.'
+                           % (n, k, n, self.dec_fields_obj(v['fields'], c)))
             body = 'None'
             for k in reversed(range(len(vs))):
                 body = 'orelse (dec_%s_v%d j) (%s)' % (n, k, body)
